@@ -984,11 +984,12 @@ func Rest(val Object) Object {
 	case Null:
 		return NULL
 	case String:
-		if len(v.Value) <= 1 {
+		rs := []rune(v.Value)
+		if len(rs) <= 1 { // one character, whatever its length in bytes.
 			return NULL
 		}
 		// rest of the string
-		return String{Value: string([]rune(v.Value)[1:])}
+		return String{Value: string(rs[1:])}
 	case SmallArray:
 		if v.len <= 1 {
 			return NULL
